@@ -15,6 +15,20 @@ open N2k.Layout Driver
 
 def findPair (id : String) : Option Pair := N2k.Gen.Layouts.all.find? (·.id == id)
 
+def variantsOf (id : String) : List Pair := N2k.Gen.Layouts.all.filter (·.variantOf == id)
+
+/-- the layout that describes the setter for these parameter values: the path variant whose condition holds -/
+def pairForSet (id : String) (codes : List Nat) : Option Pair :=
+  match (variantsOf id).find? (fun P => P.setCond.eval (fun o => codes.getD o 0)) with
+  | some P => some P
+  | none => findPair id
+
+/-- the layout that describes the parser on this message: the first path variant that accepts it -/
+def pairForParse (id : String) (pgn : Nat) (bytes : List Nat) : Option Pair :=
+  match (variantsOf id).find? (fun P => (parseMsg P pgn (bytesToBits bytes)).isSome) with
+  | some P => some P
+  | none => findPair id
+
 def byteOut (srcs : List BitSrc) (bits : List Bool) : String :=
   if srcs.any (· == .unk) then "??" else
     let b := ofBits bits
@@ -54,13 +68,16 @@ def code? (t : String) : Nat :=
 def step (_ : Unit) (w : List String) : Unit × String :=
   match w with
   | "set" :: id :: cs =>
-    match findPair id with
+    match pairForSet id (cs.map code?) with
     | none => ((), "unknown-pair")
     | some P => ((), setOut P (cs.map code?))
   | ["parse", id, pgn, h] =>
-    match findPair id, pgn.toNat?, hexBytes? h with
-    | some P, some g, some bs => ((), parseOut P g bs)
-    | _, _, _ => ((), "bad-op")
+    match pgn.toNat?, hexBytes? h with
+    | some g, some bs =>
+      match pairForParse id g bs with
+      | some P => ((), parseOut P g bs)
+      | none => ((), "unknown-pair")
+    | _, _ => ((), "bad-op")
   | "pgnlist" :: _ => ((), "no-layout")   -- PGN 126464: repeated field, outside the layout language (C15 oracle only)
   | _ => ((), "bad-op")
 
